@@ -132,6 +132,9 @@ M = {
         "    for key, value in from_study._storage.get_study_system_attrs(from_study._study_id).items():\n        to_study._storage.set_study_system_attr(to_study._study_id, key, value)\n", "", ["C09"]),
     "tpe-reads-trials-unsorted": ("optuna/storages/_cached_storage.py",
         "            trials = list(sorted(trials.values(), key=lambda t: t.number))", "            trials = list(sorted(trials.values(), key=lambda t: (t.state.value, t.number)))", ["C09"]),
+    # ---- C10 / C18 --------------------------------------------------------------------------
+    "truncnorm-unfix-bracket": ("optuna/samplers/_tpe/_truncnorm.py",
+        "    return _bisect(_log_ndtr_single, lower, +100, y)", "    return _bisect(_log_ndtr_single, -100, +100, y)", ["C10", "C18"]),
     # ---- C05 ---
     "rdb-commit-trial-row-before-template-fields": ("optuna/storages/_rdb/storage.py",
         "        session.flush()\n\n        if template_trial is not None:",
